@@ -19,19 +19,22 @@ fi
 rm -f /tmp/seedchk.$$.err
 echo "APPLY: ok ($(git diff HEAD --stat | tail -1))"
 suite_ok=0; note=""
+# SEED_FAST=1: only apply the change and run the checks (suite and demonstrations were confirmed when the seed was stored)
+[ -n "${SEED_FAST:-}" ] && suite_ok=skip
 for attempt in 1 2 3 4; do
+  [ "$suite_ok" = skip ] && break
   if go build ./... >/dev/null 2>&1 && go test -vet=off -count=1 ./... >/tmp/seedchk.$$.suite 2>&1; then suite_ok=1; break; fi
   # TestConcurrent/DeleteRollover and /Delete are flaky on the unchanged tree too (they delete the same offset twice when the publisher is slow): retry those only
   others=$(grep -- "--- FAIL" /tmp/seedchk.$$.suite | grep -v "TestConcurrent (\|TestConcurrent/DeleteRollover\|TestConcurrent/Delete " | head -1)
   [ -n "$others" ] && break
   note=" (after retrying the flaky TestConcurrent/Delete* $attempt x)"
 done
-if [ $suite_ok = 1 ]; then echo "SUITE with change: PASS$note"; else echo "SUITE with change: FAIL"; grep -m3 -- "--- FAIL\|FAIL" /tmp/seedchk.$$.suite; fi
+if [ $suite_ok = skip ]; then echo "SUITE with change: SKIPPED"; elif [ $suite_ok = 1 ]; then echo "SUITE with change: PASS$note"; else echo "SUITE with change: FAIL"; grep -m3 -- "--- FAIL\|FAIL" /tmp/seedchk.$$.suite; fi
 rm -f /tmp/seedchk.$$.suite
 demos=$(ls "$seed"/*_test.go 2>/dev/null)
 for d in $demos; do cp "$d" "$wt/zz_seed_$(basename $d)"; done
 pkgline=$(head -20 $demos | grep -m1 '^package ')
-if go test -vet=off -count=1 -run 'Demo|Seed|C[0-9][0-9]' . >/tmp/seedchk.$$.demo 2>&1; then echo "DEMO with change: PASS (unexpected)"; else echo "DEMO with change: FAIL (expected) $(grep -m1 -- '--- FAIL' /tmp/seedchk.$$.demo)"; fi
+if [ -n "${SEED_FAST:-}" ]; then echo "DEMO with change: SKIPPED"; elif go test -vet=off -count=1 -run 'Demo|Seed|C[0-9][0-9]' . >/tmp/seedchk.$$.demo 2>&1; then echo "DEMO with change: PASS (unexpected)"; else echo "DEMO with change: FAIL (expected) $(grep -m1 -- '--- FAIL' /tmp/seedchk.$$.demo)"; fi
 # run the checks against the changed tree (demo file removed first: it is a _test file and would be ignored anyway)
 rm -f "$wt"/zz_seed_*
 for p in $props; do
@@ -43,5 +46,5 @@ done
 rm -f /tmp/seedchk.$$.cerr
 git reset -q --hard HEAD; git clean -fdq
 for d in $demos; do cp "$d" "$wt/zz_seed_$(basename $d)"; done
-if go test -vet=off -count=1 -run 'Demo|Seed|C[0-9][0-9]' . >/tmp/seedchk.$$.demo 2>&1; then echo "DEMO without change: PASS (expected)"; else echo "DEMO without change: FAIL (unexpected) $(grep -m1 -- '--- FAIL' /tmp/seedchk.$$.demo)"; fi
+if [ -n "${SEED_FAST:-}" ]; then echo "DEMO without change: SKIPPED"; elif go test -vet=off -count=1 -run 'Demo|Seed|C[0-9][0-9]' . >/tmp/seedchk.$$.demo 2>&1; then echo "DEMO without change: PASS (expected)"; else echo "DEMO without change: FAIL (unexpected) $(grep -m1 -- '--- FAIL' /tmp/seedchk.$$.demo)"; fi
 rm -f /tmp/seedchk.$$.demo
